@@ -323,7 +323,7 @@ class LikelihoodModelResults:
         F = np.squeeze(F)
         return FContrastResults(
             effect=ctheta, covariance=self.vcov(
-                matrix=matrix, dispersion=dispersion[np.newaxis]),
+                matrix=matrix, dispersion=np.asarray(dispersion)[np.newaxis]),
             F=F, df_den=self.df_resid, df_num=invcov.shape[0])
 
     def conf_int(self, alpha=.05, cols=None, dispersion=None):
